@@ -6,6 +6,7 @@ pub mod c08;
 pub mod c13;
 pub mod c14;
 pub mod buschecks;
+pub mod c06;
 pub mod c09;
 pub mod c11;
 pub mod c12;
@@ -37,7 +38,7 @@ pub trait Check: Sync {
 }
 
 pub fn all() -> Vec<Box<dyn Check>> {
-    vec![Box::new(c01::C01), Box::new(c07::C07), Box::new(c08::C08), Box::new(c13::C13), Box::new(c14::C14), Box::new(buschecks::C02), Box::new(buschecks::C03), Box::new(buschecks::C04), Box::new(buschecks::C10), Box::new(buschecks::C05B), Box::new(c09::C09), Box::new(c11::C11), Box::new(c12::C12)]
+    vec![Box::new(c01::C01), Box::new(c07::C07), Box::new(c08::C08), Box::new(c13::C13), Box::new(c14::C14), Box::new(buschecks::C02), Box::new(buschecks::C03), Box::new(buschecks::C04), Box::new(buschecks::C10), Box::new(buschecks::C05B), Box::new(c09::C09), Box::new(c11::C11), Box::new(c12::C12), Box::new(c06::C06)]
 }
 
 pub fn find(id: &str) -> Option<Box<dyn Check>> {
